@@ -22,6 +22,7 @@ from harness.common import hx, unhx
 EXTRACT = ['ExSema']
 COMPONENTS = ['sema']
 
+# finding F13 (fixed in /repo by 74b8319; seeded/revert-F13 reintroduces it)
 EDGE_SIG = 'sw-release:never-issued-token-accepted:token==next==lowest'
 
 
@@ -773,7 +774,7 @@ def corpus_cases():
 
 # used only when corpus/sema/ is missing
 BUILTIN_CORPUS = [
-    (2, (('a', 7), ('r', 7, 0), ('r', 7, 1))),                                     # the unguarded edge
+    (2, (('a', 7), ('r', 7, 0), ('r', 7, 1))),                                     # F13: must be rejected
     (3, (('a', 1), ('a', 1), ('a', 1), ('r', 1, 2), ('r', 1, 1), ('r', 1, 0))),    # run of three drained at once
 ]
 
